@@ -39,6 +39,7 @@ def run(ctx) -> None:
     r3_regex(ctx)
     r4_field_names(ctx)
     r5_reparse_sites(ctx)
+    r9_names_from_values(ctx)
     r.rule("C05.R8", "renderings and the quoting decision look at the value, never at the unparsed `original` text (empty or stale for every derived value: slices for startswith/endswith/contains, concatenations, case mapping)")
     from . import c03
     c03.original_reads(ctx, "C05.R8")
@@ -434,3 +435,32 @@ def r5_reparse_sites(ctx, rid: str = "C05.R5", placeholders: bool = False) -> No
                     r.violation(rid, q, short(c, 120), f"map_parts(..., interpret_special={unparse(flag)}) parses the callback's whole result for a part: the characters of the part the callback did not touch are interpreted a second time ('50\\* off' → wildcard, '\\\\srv' loses a backslash) — even if nothing was replaced", loc)
         r.analysed["C05.map_parts_call_sites"] = n_mp
     r.floor(rid, 2)
+
+
+def r9_names_from_values(ctx) -> None:
+    """A value that becomes a *name* (field reference) is taken by its characters. str(x)/x.to_plain() of a Sigma string is
+    the re-parsable source form (backslash in front of a literal * or ?), which names another field."""
+    r, prog = ctx.r, ctx.prog
+    r.rule("C05.R9", "a field reference built from a Sigma string takes the characters of the value (to_plain(True) / to_plain(regex=True) / a name that is already a str), not the escaped source form str(x) / x.to_plain()")
+    n = 0
+    for q, f in sorted(prog.funcs.items()):
+        if not f.module.name.startswith("sigma."):
+            continue
+        for c in (x for x in walk_no_nested(f.node) if isinstance(x, ast.Call) and call_name(x).split(".")[-1] == "SigmaFieldReference" and x.args):
+            n += 1
+            a0 = c.args[0]
+            loc = f"{f.module.relpath}:{c.lineno}"
+            escaped = None
+            for x in ast.walk(a0):
+                if isinstance(x, ast.Call) and call_name(x) == "str" and x.args and any(t.endswith((".SigmaString", ".SigmaCasedString")) for t in ctx.types.class_names(f.module, x.args[0])):
+                    escaped = x
+                if isinstance(x, ast.Call) and isinstance(x.func, ast.Attribute) and x.func.attr == "to_plain" and any(t.endswith((".SigmaString", ".SigmaCasedString")) for t in ctx.types.class_names(f.module, x.func.value)):
+                    raw = (x.args and isinstance(x.args[0], ast.Constant) and x.args[0].value is True) or any(k.arg == "regex" and isinstance(k.value, ast.Constant) and k.value.value is True for k in x.keywords)
+                    if not raw:
+                        escaped = x
+            if escaped is not None:
+                r.violation("C05.R9", q, short(c, 100), f"the field name is {unparse(escaped)}, the escaped source form of the value: `other|fieldref: 'bytes\\*2'` refers to the field bytes\\*2 (with a backslash) instead of bytes*2, and a field name mapping for bytes*2 does not reach it", loc)
+            else:
+                r.ok("C05.R9", q, f"{short(c, 80)}: name taken by its characters", loc)
+    r.analysed["C05.field_reference_constructions"] = n
+    r.floor("C05.R9", 2)
